@@ -169,9 +169,11 @@ def nud__plus_minus_operators(self: XPathToken) -> XPathToken:
 
 def _floating_type(op1: object, op2: object) -> type[float]:
     """The result type for xs:float/xs:double operands: xs:float only if no xs:double is involved."""
-    if type(op1) is float or type(op2) is float:
-        return float
-    return type(op1) if isinstance(op1, Float) else type(op2)  # type: ignore[return-value]
+    if isinstance(op1, Float) and type(op2) is not float:
+        return type(op1)
+    elif isinstance(op2, Float) and type(op1) is not float:
+        return type(op2)
+    return float
 
 
 @method(infix('div', bp=45))
@@ -208,11 +210,11 @@ def evaluate__div_operator(self: XPathToken, context: ta.ContextType = None) \
     cls = _floating_type(dividend, divisor) \
         if isinstance(dividend, float) or isinstance(divisor, float) else float
     if dividend == 0 or dividend != dividend:
-        return cls('nan')
+        return cls(math.nan)
     elif dividend > 0:
-        return cls('-inf') if str(divisor).startswith('-') else cls('inf')
+        return cls(-math.inf) if str(divisor).startswith('-') else cls(math.inf)
     else:
-        return cls('inf') if str(divisor).startswith('-') else cls('-inf')
+        return cls(math.inf) if str(divisor).startswith('-') else cls(-math.inf)
 
 
 @method(infix('mod', bp=45))
@@ -231,7 +233,7 @@ def evaluate__mod_operator(self: XPathToken, context: ta.ContextType = None) \
             # xs:float and xs:double: IEEE remainder with the sign of the dividend
             cls = _floating_type(op1, op2)
             if math.isnan(op1) or math.isnan(op2) or math.isinf(op1) or op2 == 0:
-                return cls('nan')
+                return cls(math.nan)
             return cls(math.fmod(op1, op2))
         elif isinstance(op1, int) and isinstance(op2, int):
             result = abs(op1) % abs(op2)
